@@ -128,11 +128,39 @@ class TlcResult:
         return cov
 
 
+def _spec_digest():
+    h = hashlib.sha1()
+    for d in (SPEC, os.path.join(SPEC, "mc")):
+        for f in sorted(os.listdir(d)):
+            if f.endswith(".tla"):
+                h.update(f.encode())
+                h.update(open(os.path.join(d, f), "rb").read())
+    return h.hexdigest()
+
+
 def tlc(spec_tla, cfg, workers=8, timeout=900, simulate=None, depth=None, seed_=None, env=None,
         metadir=None, java_opts=None, extra=None, coverage=False, dfs=False, heap="8g"):
-    """Run TLC on spec_tla (path relative to SPEC or absolute) with cfg."""
+    """Run TLC on spec_tla (path relative to SPEC or absolute) with cfg.
+    Design-level model-checking runs (no TRACE environment) depend only on the specification files and the configuration, not on
+    /repo: their outcome is memoised under work/mc-cache so that the checks of properties that share a model (C08/C09/C10, C05/C12,
+    C02/C03/C04, C15/C16/C18) do not repeat it within one sandbox.  The memo is keyed by the content of every spec file."""
     spec_tla = spec_tla if os.path.isabs(spec_tla) else os.path.join(SPEC, spec_tla)
     cfg = cfg if os.path.isabs(cfg) else os.path.join(SPEC, cfg)
+    cache_file = None
+    if env is None and os.environ.get("VERIF_NO_MC_CACHE") != "1":
+        key = hashlib.sha1((_spec_digest() + open(cfg).read() + os.path.basename(spec_tla) +
+                            repr((simulate, depth, seed_, extra))).encode()).hexdigest()
+        cdir = os.path.join(OUT, "work", "mc-cache")
+        os.makedirs(cdir, exist_ok=True)
+        cache_file = os.path.join(cdir, key + ".json")
+        if os.path.exists(cache_file):
+            try:
+                c = json.load(open(cache_file))
+                r = TlcResult(c["rc"], c["out"], c["wall"])
+                r.cmd = c["cmd"] + "   # (memoised result of an identical model-checking run in this sandbox)"
+                return r
+            except Exception:
+                pass
     metadir = metadir or os.path.join(OUT, "work", "tlc-%d-%d" % (os.getpid(), int(time.time() * 1000) % 100000000))
     jopts = ["-XX:+UseParallelGC", "-Xmx" + heap, "-Xss1g", "-DTLA-Library=" + SPEC + os.pathsep + os.path.join(SPEC, "trace") + os.pathsep + os.path.join(SPEC, "mc")]
     if dfs:
@@ -165,6 +193,10 @@ def tlc(spec_tla, cfg, workers=8, timeout=900, simulate=None, depth=None, seed_=
     r.cmd = " ".join(cmd)
     if r.parse_error:
         raise ToolError("TLC could not parse %s:\n%s" % (spec_tla, out[-5000:]))
+    if cache_file and (r.no_error or r.inv_violated):
+        keep = "\n".join(l for l in out.splitlines() if not l.startswith(("Parsing file", "Semantic processing", "Linting")))
+        with open(cache_file, "w") as f:
+            json.dump({"rc": rc, "out": keep[-400000:] if "REPLAY" not in keep else keep, "wall": r.wall, "cmd": r.cmd}, f)
     return r
 
 
